@@ -312,161 +312,167 @@ def corr(ctx):
 
     # ---- arithmetic of results ----------------------------------------------------------------
     for it in range(ctx.n(50, 600)):
-        a = gen.eres()
-        b, what = gen.like(a)
-        ta, tb = res_tok(a, gen), res_tok(b, gen)
-        emit(f"add {ta} {tb}", run_op(lambda: a + b, render), f"E+E[{what}]")
-        emit(f"sub {ta} {tb}", run_op(lambda: a - b, render), "E-E")
-        k = rng.choice(["EV", "VE", "E0", "EN", "VV", "subEV", "subVE", "subVV"])
-        if k == "EV":
-            emit(f"add {ta} V", run_op(lambda: a + V(), render), "E+Void")
-        elif k == "VE":
-            emit(f"add V {ta}", run_op(lambda: V() + a, render), "Void+E")
-        elif k == "E0":
-            emit(f"add {ta} Z", run_op(lambda: a + 0, render), "E+0")
-        elif k == "EN":
-            emit(f"add {ta} NONE", run_op(lambda: a + None, render), "E+None")
-        elif k == "VV":
-            emit("add V V", run_op(lambda: V() + V(), render), "Void+Void")
-        elif k == "subEV":
-            emit(f"sub {ta} V", run_op(lambda: a - V(), render), "E-Void")
-        elif k == "subVE":
-            emit(f"sub V {ta}", run_op(lambda: V() - a, render), "Void-E")
-        else:
-            emit("sub V V", run_op(lambda: V() - V(), render), "Void-Void")
-        c = rng.choice([2, -1, 0, 3, 0.5, -0.25, 1.5, 8.0, -3])
-        emit(f"mul {rats([c])} {ta}", run_op(lambda: a * c, render), "E*c")
-        if rng.random() < 0.3:
-            emit(f"mul {rats([c])} {ta}", run_op(lambda: c * a, render), "c*E")
-            emit(f"mul {rats([c])} V", run_op(lambda: V() * c, render), "Void*c")
-        d = rng.choice([2, -4, 0.5, 0.125, -1, 8.0])       # powers of two: 1/d and the product are exact
-        emit(f"div {rats([d])} {ta}", run_op(lambda: a / d, render), "E/c")
-        if a.N_energies >= 1 and rng.random() < 0.5:
-            nax = rng.randint(1, min(2, a.data.ndim))
-            axes = tuple(sorted(rng.sample(range(a.data.ndim), nax)))
-            w = rand_data(rng, [a.data.shape[i] for i in axes], False)
-            wre, wim = arr_toks(w)
-            arg = axes if (len(axes) > 1 or rng.random() < 0.5) else axes[0]
-            emit(f"mularray {ints(axes)} {ints(w.shape)} {wre} {wim} {ta}",
-                 run_op(lambda: a.mul_array(w, axes=arg), render), "mul_array")
+        with ctx.attempt("correspondence section: building / operating on real objects", dict(iteration=it)):
+            a = gen.eres()
+            b, what = gen.like(a)
+            ta, tb = res_tok(a, gen), res_tok(b, gen)
+            emit(f"add {ta} {tb}", run_op(lambda: a + b, render), f"E+E[{what}]")
+            emit(f"sub {ta} {tb}", run_op(lambda: a - b, render), "E-E")
+            k = rng.choice(["EV", "VE", "E0", "EN", "VV", "subEV", "subVE", "subVV"])
+            if k == "EV":
+                emit(f"add {ta} V", run_op(lambda: a + V(), render), "E+Void")
+            elif k == "VE":
+                emit(f"add V {ta}", run_op(lambda: V() + a, render), "Void+E")
+            elif k == "E0":
+                emit(f"add {ta} Z", run_op(lambda: a + 0, render), "E+0")
+            elif k == "EN":
+                emit(f"add {ta} NONE", run_op(lambda: a + None, render), "E+None")
+            elif k == "VV":
+                emit("add V V", run_op(lambda: V() + V(), render), "Void+Void")
+            elif k == "subEV":
+                emit(f"sub {ta} V", run_op(lambda: a - V(), render), "E-Void")
+            elif k == "subVE":
+                emit(f"sub V {ta}", run_op(lambda: V() - a, render), "Void-E")
+            else:
+                emit("sub V V", run_op(lambda: V() - V(), render), "Void-Void")
+            c = rng.choice([2, -1, 0, 3, 0.5, -0.25, 1.5, 8.0, -3])
+            emit(f"mul {rats([c])} {ta}", run_op(lambda: a * c, render), "E*c")
+            if rng.random() < 0.3:
+                emit(f"mul {rats([c])} {ta}", run_op(lambda: c * a, render), "c*E")
+                emit(f"mul {rats([c])} V", run_op(lambda: V() * c, render), "Void*c")
+            d = rng.choice([2, -4, 0.5, 0.125, -1, 8.0])       # powers of two: 1/d and the product are exact
+            emit(f"div {rats([d])} {ta}", run_op(lambda: a / d, render), "E/c")
+            if a.N_energies >= 1 and rng.random() < 0.5:
+                nax = rng.randint(1, min(2, a.data.ndim))
+                axes = tuple(sorted(rng.sample(range(a.data.ndim), nax)))
+                w = rand_data(rng, [a.data.shape[i] for i in axes], False)
+                wre, wim = arr_toks(w)
+                arg = axes if (len(axes) > 1 or rng.random() < 0.5) else axes[0]
+                emit(f"mularray {ints(axes)} {ints(w.shape)} {wre} {wim} {ta}",
+                     run_op(lambda: a.mul_array(w, axes=arg), render), "mul_array")
 
     # ---- symmetry transformation ----------------------------------------------------------------
     mats = int_matrices()
     for it in range(ctx.n(40, 500)):
-        M = rng.choice(mats)
-        TR = rng.random() < 0.5
-        g = W["PointSymmetry"](M.copy(), TR=TR)
-        a = gen.eres(none_transforms=rng.random() < 0.15)
-        emit(f"transform {sym_toks(M, TR)} {res_tok(a, gen)}", run_op(lambda: a.transform(g), render), "E.transform")
-        if rng.random() < 0.2:
-            emit(f"transform {sym_toks(M, TR)} V", run_op(lambda: V().transform(g), render), "Void.transform")
-        # transform_tensor and Transform.__call__ directly, arbitrary leading axes
-        rank = rng.choice([0, 1, 2, 3])
-        lead = [rng.choice([1, 2, 3]) for _ in range(rng.choice([0, 1, 2]))]
-        shape = lead + [3] * rank
-        if not shape:
-            shape = [2]
-        nd = len(shape)
-        tTR, tInv = rand_transform(rng, W, rank, nd), rand_transform(rng, W, rank, nd)
-        A = rand_data(rng, shape, rng.random() < 0.5)
-        re, im = arr_toks(A)
+        with ctx.attempt("correspondence section: building / operating on real objects", dict(iteration=it)):
+            M = rng.choice(mats)
+            TR = rng.random() < 0.5
+            g = W["PointSymmetry"](M.copy(), TR=TR)
+            a = gen.eres(none_transforms=rng.random() < 0.15)
+            emit(f"transform {sym_toks(M, TR)} {res_tok(a, gen)}", run_op(lambda: a.transform(g), render), "E.transform")
+            if rng.random() < 0.2:
+                emit(f"transform {sym_toks(M, TR)} V", run_op(lambda: V().transform(g), render), "Void.transform")
+            # transform_tensor and Transform.__call__ directly, arbitrary leading axes
+            rank = rng.choice([0, 1, 2, 3])
+            lead = [rng.choice([1, 2, 3]) for _ in range(rng.choice([0, 1, 2]))]
+            shape = lead + [3] * rank
+            if not shape:
+                shape = [2]
+            nd = len(shape)
+            tTR, tInv = rand_transform(rng, W, rank, nd), rand_transform(rng, W, rank, nd)
+            A = rand_data(rng, shape, rng.random() < 0.5)
+            re, im = arr_toks(A)
 
-        def tt():
-            return g.transform_tensor(A, rank, transformTR=tTR, transformInv=tInv)
-        emit(f"ttensor {sym_toks(M, TR)} {ints(shape)} {rank} {ttok(tTR)} {ttok(tInv)} {re} {im}",
-             run_op(tt, lambda x: " ".join(arr_toks(x))), "transform_tensor")
-        emit(f"tcall {ints(shape)} {ttok(tTR)} {re} {im}",
-             run_op(lambda: tTR(A.copy()), lambda x: " ".join(arr_toks(x))), "Transform.__call__")
-        t2 = rng.choice([tTR, tInv, rand_transform(rng, W, rank, nd),
-                         W["Transform"](factor=tTR.factor, conj=tTR.conj, transpose_axes=tTR.transpose_axes)])
-        emit(f"teq {ttok(tTR)} {ttok(t2)}", str(int(tTR == t2)), "Transform.__eq__")
+            def tt():
+                return g.transform_tensor(A, rank, transformTR=tTR, transformInv=tInv)
+            emit(f"ttensor {sym_toks(M, TR)} {ints(shape)} {rank} {ttok(tTR)} {ttok(tInv)} {re} {im}",
+                 run_op(tt, lambda x: " ".join(arr_toks(x))), "transform_tensor")
+            emit(f"tcall {ints(shape)} {ttok(tTR)} {re} {im}",
+                 run_op(lambda: tTR(A.copy()), lambda x: " ".join(arr_toks(x))), "Transform.__call__")
+            t2 = rng.choice([tTR, tInv, rand_transform(rng, W, rank, nd),
+                             W["Transform"](factor=tTR.factor, conj=tTR.conj, transpose_axes=tTR.transpose_axes)])
+            emit(f"teq {ttok(tTR)} {ttok(t2)}", str(int(tTR == t2)), "Transform.__eq__")
 
     # ---- K results ----------------------------------------------------------------------------------
     for it in range(ctx.n(30, 400)):
-        a = rand_kres(rng, W)
-        rank, nband = a.rank, a.data_list[0].shape[1]
-        how = rng.choice(["fit", "fit", "fit", "nband", "rank", "transform"])
-        b = rand_kres(rng, W, nband=nband + (1 if how == "nband" else 0), rank=rank + (1 if how == "rank" else 0),
-                      tTR=None if how in ("transform", "rank") else a.transformTR,
-                      tInv=None if how == "rank" else a.transformInv)
-        tail = ints(a.data_list[0].shape[1:])
-        ta, tb = k_toks(a), k_toks(b)
-        with quiet():
-            emit(f"kadd {tail} {ta} {tb}", run_op(lambda: a + b, k_render), f"K+K[{how}]")
-        c = rng.choice([2, -1, 0.5, 3, 0])
-        emit(f"kmul {tail} {rats([c])} {ta}", run_op(lambda: a * c, k_render), "K*c")
-        emit(f"kdiv {tail} {rats([c if c else 2])} {ta}", run_op(lambda: a / (c if c else 2), k_render), "K/c")
-        M = rng.choice(mats)
-        TR = rng.random() < 0.5
-        g = W["PointSymmetry"](M.copy(), TR=TR)
-        emit(f"ktransform {tail} {sym_toks(M, TR)} {ta}", run_op(lambda: a.transform(g), k_render), "K.transform")
-        # element-wise: same block structure
-        b2 = W["KBandResult"]([rand_data(rng, d.shape, np.iscomplexobj(d)) for d in a.data_list],
-                              transformTR=a.transformTR, transformInv=a.transformInv)
-        tb2 = k_toks(b2)
+        with ctx.attempt("correspondence section: building / operating on real objects", dict(iteration=it)):
+            a = rand_kres(rng, W)
+            rank, nband = a.rank, a.data_list[0].shape[1]
+            how = rng.choice(["fit", "fit", "fit", "nband", "rank", "transform"])
+            b = rand_kres(rng, W, nband=nband + (1 if how == "nband" else 0), rank=rank + (1 if how == "rank" else 0),
+                          tTR=None if how in ("transform", "rank") else a.transformTR,
+                          tInv=None if how == "rank" else a.transformInv)
+            tail = ints(a.data_list[0].shape[1:])
+            ta, tb = k_toks(a), k_toks(b)
+            with quiet():
+                emit(f"kadd {tail} {ta} {tb}", run_op(lambda: a + b, k_render), f"K+K[{how}]")
+            c = rng.choice([2, -1, 0.5, 3, 0])
+            emit(f"kmul {tail} {rats([c])} {ta}", run_op(lambda: a * c, k_render), "K*c")
+            emit(f"kdiv {tail} {rats([c if c else 2])} {ta}", run_op(lambda: a / (c if c else 2), k_render), "K/c")
+            M = rng.choice(mats)
+            TR = rng.random() < 0.5
+            g = W["PointSymmetry"](M.copy(), TR=TR)
+            emit(f"ktransform {tail} {sym_toks(M, TR)} {ta}", run_op(lambda: a.transform(g), k_render), "K.transform")
+            # element-wise: same block structure
+            b2 = W["KBandResult"]([rand_data(rng, d.shape, np.iscomplexobj(d)) for d in a.data_list],
+                                  transformTR=a.transformTR, transformInv=a.transformInv)
+            tb2 = k_toks(b2)
 
-        def addip():
-            a2 = W["KBandResult"]([d.copy() for d in a.data_list], transformTR=a.transformTR, transformInv=a.transformInv)
-            a2.add(b2)
-            return a2
-        emit(f"kaddip {tail} {ta} {tb2}", run_op(addip, k_render), "K.add(in place)")
-        emit(f"ksub {tail} {ta} {tb2}", run_op(lambda: a - b2, k_render), "K-K")   # merges a's and b2's blocks
+            def addip():
+                a2 = W["KBandResult"]([d.copy() for d in a.data_list], transformTR=a.transformTR, transformInv=a.transformInv)
+                a2.add(b2)
+                return a2
+            emit(f"kaddip {tail} {ta} {tb2}", run_op(addip, k_render), "K.add(in place)")
+            emit(f"ksub {tail} {ta} {tb2}", run_op(lambda: a - b2, k_render), "K-K")   # merges a's and b2's blocks
 
     # ---- ResultDict keys ------------------------------------------------------------------------------
     for it in range(ctx.n(30, 200)):
-        pool = ["ahc", "dos", "tab", "x", "y", "z"]
-        ka = rng.sample(pool, rng.randint(0, 5))
-        kb = rng.sample(pool, rng.randint(0, 5))
-        da = W["ResultDict"]({k: V() for k in ka})
-        db = W["ResultDict"]({k: V() for k in kb})
-        got = list((da + db).results)
-        emit(f"rdkeys {','.join(ka) or '_'} {','.join(kb) or '_'}", ",".join(got) or "_", "ResultDict keys")
+        with ctx.attempt("correspondence section: building / operating on real objects", dict(iteration=it)):
+            pool = ["ahc", "dos", "tab", "x", "y", "z"]
+            ka = rng.sample(pool, rng.randint(0, 5))
+            kb = rng.sample(pool, rng.randint(0, 5))
+            da = W["ResultDict"]({k: V() for k in ka})
+            db = W["ResultDict"]({k: V() for k in kb})
+            got = list((da + db).results)
+            emit(f"rdkeys {','.join(ka) or '_'} {','.join(kb) or '_'}", ",".join(got) or "_", "ResultDict keys")
 
     # ---- persistence -----------------------------------------------------------------------------------
     tmp = os.path.join(ctx.work, "npz")
     os.makedirs(tmp, exist_ok=True)
     for it in range(ctx.n(50, 400)):
-        a = gen.eres(none_transforms=rng.random() < 0.1)
-        emit(f"asdict {res_tok(a, gen)}", run_op(a.as_dict, dict_render), "as_dict")
-        if a.transformTR is None or a.transformInv is None:
-            continue
-        d = dict(a.as_dict())
-        how = rng.choice(["full", "full", "no-comment", "no-TR", "no-Inv", "void", "no-energy", "no-rank", "no-data",
-                          "fewer-titles", "no-titles"])
-        if how == "no-comment":
-            d.pop("comment", None)
-        elif how == "no-TR":
-            d.pop("transformTR", None)
-        elif how == "no-Inv":
-            d.pop("transformInv", None)
-        elif how == "void":
-            d["type"] = "VoidResult"
-        elif how == "no-energy" and a.N_energies:
-            d.pop(f"Energies_{rng.randrange(a.N_energies)}", None)
-        elif how == "no-rank":
-            d.pop("rank", None)
-        elif how == "no-data":
-            d.pop("data", None)
-        elif how == "fewer-titles" and a.N_energies:
-            d["E_titles"] = list(d.get("E_titles", []))[:-1]
-        elif how == "no-titles":
-            d.pop("E_titles", None)
-        path = os.path.join(tmp, f"c{it}.npz")
-        with open(path, "wb") as f:
-            np.savez_compressed(f, **d)
-        with quiet():
-            emit("fromdict " + dict_render(d), run_op(lambda: W["EnergyResult"].from_npz(path), render), f"from_npz[{how}]")
-        os.remove(path)
+        with ctx.attempt("correspondence section: building / operating on real objects", dict(iteration=it)):
+            a = gen.eres(none_transforms=rng.random() < 0.1)
+            emit(f"asdict {res_tok(a, gen)}", run_op(a.as_dict, dict_render), "as_dict")
+            if a.transformTR is None or a.transformInv is None:
+                continue
+            d = dict(a.as_dict())
+            how = rng.choice(["full", "full", "no-comment", "no-TR", "no-Inv", "void", "no-energy", "no-rank", "no-data",
+                              "fewer-titles", "no-titles"])
+            if how == "no-comment":
+                d.pop("comment", None)
+            elif how == "no-TR":
+                d.pop("transformTR", None)
+            elif how == "no-Inv":
+                d.pop("transformInv", None)
+            elif how == "void":
+                d["type"] = "VoidResult"
+            elif how == "no-energy" and a.N_energies:
+                d.pop(f"Energies_{rng.randrange(a.N_energies)}", None)
+            elif how == "no-rank":
+                d.pop("rank", None)
+            elif how == "no-data":
+                d.pop("data", None)
+            elif how == "fewer-titles" and a.N_energies:
+                d["E_titles"] = list(d.get("E_titles", []))[:-1]
+            elif how == "no-titles":
+                d.pop("E_titles", None)
+            path = os.path.join(tmp, f"c{it}.npz")
+            with open(path, "wb") as f:
+                np.savez_compressed(f, **d)
+            with quiet():
+                emit("fromdict " + dict_render(d), run_op(lambda: W["EnergyResult"].from_npz(path), render), f"from_npz[{how}]")
+            os.remove(path)
     with quiet():
         emit("asdict V", run_op(V().as_dict, dict_render), "Void.as_dict")
     for it in range(ctx.n(20, 100)):
-        nE = rng.randint(0, 4)
-        titles = rng.choice([("Efermi", "Omega"), ("Efermi",), ("a", "b", "c", "d", "e"), (), "single"])
-        shape = [2] * nE
-        r = W["EnergyResult"]([np.arange(2.)] * nE, np.zeros(shape + [3]), rank=1,
-                              E_titles=titles if titles == "single" else list(titles))
-        tl = ["single"] if titles == "single" else list(titles)
-        emit(f"titles {nE} {','.join(tl) or '_'}", ",".join(r.E_titles) or "_", "E_titles normalisation")
+        with ctx.attempt("correspondence section: building / operating on real objects", dict(iteration=it)):
+            nE = rng.randint(0, 4)
+            titles = rng.choice([("Efermi", "Omega"), ("Efermi",), ("a", "b", "c", "d", "e"), (), "single"])
+            shape = [2] * nE
+            r = W["EnergyResult"]([np.arange(2.)] * nE, np.zeros(shape + [3]), rank=1,
+                                  E_titles=titles if titles == "single" else list(titles))
+            tl = ["single"] if titles == "single" else list(titles)
+            emit(f"titles {nE} {','.join(tl) or '_'}", ",".join(r.E_titles) or "_", "E_titles normalisation")
 
     out = ctx.lean(lines)
     nbad = 0
